@@ -1028,6 +1028,19 @@ func (s *ObjectStorage) buildPackfileIters(
 			s.muI.RLock()
 			idx := s.index[h]
 			s.muI.RUnlock()
+			if idx == nil {
+				// The pack was added to the repository (e.g. by
+				// another process) after the index map was
+				// loaded: refresh the inventory instead of
+				// failing with "index is not set".
+				if err := s.Reindex(); err != nil {
+					_ = pack.Close()
+					return nil, err
+				}
+				s.muI.RLock()
+				idx = s.index[h]
+				s.muI.RUnlock()
+			}
 			return newPackfileIter(
 				s.dir.Fs(), pack, t, seen, idx,
 				s.objectCache, false, h.Size(),
